@@ -2,7 +2,7 @@
 
     tools/run_seeded.py <seeded-id | path/to/patch.diff> <Cxx> [--tier quick] [--seed N] [--keep]
 
-Creates a scratch git worktree of /repo HEAD and a private copy of the lake workspace under /tmp,
+(With VERIF_LEAN_DIR set, that lake workspace is the one copied.)  Creates a scratch git worktree of /repo HEAD and a private copy of the lake workspace under /tmp,
 applies the patch, runs `./check Cxx` with LADYBUG_REPO / VERIF_LEAN_DIR pointing at them, prints the
 verdict lines, and removes both again.  Development-time tool only (not a registered command).
 """
@@ -37,7 +37,7 @@ def main():
         subprocess.check_call(['git', '-C', '/repo', 'worktree', 'add', '--detach', wt, 'HEAD'],
                               stdout=subprocess.DEVNULL, stderr=subprocess.DEVNULL)
         subprocess.check_call(['git', '-C', wt, 'apply', patch])
-        shutil.copytree(os.path.join(ROOT, 'lean'), lean, symlinks=True)
+        shutil.copytree(os.environ.get('VERIF_LEAN_DIR') or os.path.join(ROOT, 'lean'), lean, symlinks=True)
         env = dict(os.environ, LADYBUG_REPO=wt, VERIF_LEAN_DIR=lean, VERIF_SEED=a.seed,
                    VERIF_EVIDENCE_DIR=os.path.join(tmp, 'evidence'))
         p = subprocess.run([os.path.join(ROOT, 'check'), a.prop, '--tier', a.tier], env=env,
